@@ -106,6 +106,11 @@ func (collection *rcLinkCollectionImpl) GetLinkCount(tx *bbolt.Tx, id []byte, re
 
 func (collection *rcLinkCollectionImpl) EntityDeleted(tx *bbolt.Tx, id string) error {
 	bId := []byte(id)
+	if collection.field.GetStore().GetEntityBucket(tx, bId) == nil {
+		// an entity of the parent store which has no data in this (extended) child store: it has no links in this
+		// collection either, there is nothing to clean up
+		return nil
+	}
 	fieldBucket := collection.getFieldBucket(tx, bId)
 
 	if !fieldBucket.HasError() {
